@@ -295,9 +295,9 @@ def run(ctx):
         ctx.ob("C19.G.generics-otherwise-unchanged", f.key, "return generics", rs == ["a2"] or all(e == "a2" for e in rs), "%s" % rs)
     f = ctx.fn("darling_core::codegen::trait_impl::TraitImpl::<'a>::used_type_params")
     if f:
-        cl = {c.key.rsplit("::", 1)[-1]: ctx.ret_values(c) for c in ctx.closures_of(f)}
-        ok = cl.get("{closure#0}") == ["!a2.skip"] and cl.get("{closure#1}") == ["!a2.skip"]
-        ctx.ob("C19.G.skipped-fields-and-variants-ignored", f.key, "|f| !f.skip, |v| !v.skip", ok, "%s" % cl)
+        cl = [ctx.true_conditions(c) for c in ctx.closures_of(f)]
+        ok = len(cl) == 2 and all(p == [{"a2.skip=False"}] for p in cl)
+        ctx.ob("C19.G.skipped-fields-and-variants-ignored", f.key, "|f| !f.skip, |v| !v.skip", ok, "filters keep an element under %s" % cl)
     f = ctx.fn("darling_core::codegen::trait_impl::TraitImpl::<'a>::type_params_in_fields")
     if f:
         c = ctx.find_calls(f, r"collect_type_params_cloned$")
